@@ -561,7 +561,13 @@ func verifEmitConns(out *verifkit.Trace, w *verifWorld, mark *int) {
 	*mark = w.sim.ConnCount()
 }
 
+/* the hook as start-up left it (before any driver overrides it) */
+var verifConfiguredHook []string
+
 func verifSetup(t *testing.T) (*verifWorld, *verifkit.Trace) {
+	if verifConfiguredHook == nil {
+		verifConfiguredHook = append([]string{}, config.Parsed.Media.Hook...)
+	}
 	sim := verifsim.Get()
 	jtp.VerifSetTimeout(3 * time.Second)
 	jtp.VerifSetCache(256)
@@ -772,13 +778,23 @@ func verifStatusLine(w *verifWorld, out *verifkit.Trace, sid *int, rng *rand.Ran
 	(body links, attachments with media types, post media, profile picture, banner - with
 	spaces, quotes, leading dashes, $(), backticks and text that looks like a placeholder).
 */
-func verifHookWorld(w *verifWorld) (postURL string, actorURL string) {
+/* what a numbered link of the hook world really is: the address as the document gives it and its media type */
+type verifTruth struct {
+	link                  string
+	essence, super, sub   string
+	known                 bool // media type known from the document (else: read through the accessor)
+}
+
+func verifHookWorld(w *verifWorld) (postURL string, actorURL string, truth []verifTruth) {
 	u := w.h.URL
 	hrefs := []string{u("/plain"), u("/with space"), "--leading-dash", "$(touch /tmp/verif-pwned)", "`id`", "%url", "%mimetype",
-		"'single' \"double\"", u("/a?b=c&d=%25e#frag"), "; rm -rf /tmp/x", "a\\b", "%subtype/%url", "-", "ünïcödé ☃"}
+		"'single' \"double\"", u("/a?b=c&d=%25e#frag"), "; rm -rf /tmp/x", "a\\b", "%subtype/%url", "-", "ünïcödé ☃",
+		/* text that reads like a character reference once more: the address is decoded once, by the HTML parser */
+		u("/q?page=2&copy=3&lt=4&reg=eu"), u("/AT&amp;T/x?a=1&amp;b=2"), "&#65;&quot;"}
 	content := "<p>"
 	for i, h := range hrefs {
 		content += fmt.Sprintf(`<a href="%s">link%d</a> `, strings.NewReplacer("&", "&amp;", `"`, "&quot;").Replace(h), i)
+		truth = append(truth, verifTruth{h, "*/*", "*", "*", true})
 	}
 	content += "</p>"
 	w.put("/notes/hk", map[string]any{"type": "Video", "name": "hk", "attributedTo": u("/users/carol"), "published": "2024-01-01T00:00:00Z",
@@ -789,11 +805,16 @@ func verifHookWorld(w *verifWorld) (postURL string, actorURL string) {
 			map[string]any{"type": "Link", "href": u("/att/one two.png"), "mediaType": "image/png", "name": "first"},
 			map[string]any{"type": "Document", "url": u("/att/doc?x=$(id)"), "mediaType": "%subtype/%url", "name": "second"},
 			map[string]any{"type": "Image", "url": u("/att/noType"), "name": "third"},
-			map[string]any{"type": "Link", "href": u("/att/weird"), "mediaType": "x-%url/%mimetype+%supertype", "name": "fourth"}}})
+			map[string]any{"type": "Link", "href": u("/att/weird"), "mediaType": "x-%url/%mimetype+%supertype", "name": "fourth"},
+			map[string]any{"type": "Document", "url": u("/att/untyped doc"), "name": "fifth"}}})
+	/* addresses of attachments are parsed and written out again (a blank becomes %20): the same address in
+	   normal form, read through the accessor; their media types are settled by the document */
+	truth = append(truth, verifTruth{"", "image/png", "image", "png", true}, verifTruth{},
+		verifTruth{"", "image/*", "image", "*", true}, verifTruth{}, verifTruth{"", "*/*", "*", "*", true})
 	w.put("/users/carol", map[string]any{"type": "Person", "name": "carol", "preferredUsername": "carol",
 		"icon": map[string]any{"type": "Image", "url": u("/media/carol icon.png"), "mediaType": "image/png"},
 		"image": []any{map[string]any{"type": "Image", "url": u("/media/banner-$(x).jpg")}, map[string]any{"type": "Link", "href": u("/media/small.gif"), "mediaType": "image/gif", "width": 1, "height": 1}}})
-	return u("/notes/hk"), u("/users/carol")
+	return u("/notes/hk"), u("/users/carol"), truth
 }
 
 func TestVerifHook(t *testing.T) {
@@ -804,11 +825,17 @@ func TestVerifHook(t *testing.T) {
 	w, out := verifSetup(t)
 	defer out.Close()
 	defer w.sim.Cleanup()
-	postURL, actorURL := verifHookWorld(w)
+	postURL, actorURL, truth := verifHookWorld(w)
 	sid := 0
 	for _, args := range in.Hooks {
 		hook := append([]string{os.Args[0], "--verif-hook"}, args...)
-		config.Parsed.Media.Hook = hook
+		if os.Getenv("VERIF_HOOK_FROM_CONFIG") != "" {
+			/* this process was started with a configuration file naming exactly this hook: what start-up made
+			   of it is what runs; `hook` stays the command as configured */
+			config.Parsed.Media.Hook = verifConfiguredHook
+		} else {
+			config.Parsed.Media.Hook = hook
+		}
 		for _, page := range []string{postURL, actorURL} {
 			sid++
 			v := verifNewSession(w, out, sid, false)
@@ -835,6 +862,15 @@ func TestVerifHook(t *testing.T) {
 						break
 					}
 					p := mtOf(link, mt.Essence, mt.Supertype, mt.Subtype, true)
+					/* the address as the document gives it, and the media type where the document settles it */
+					if k <= len(truth) {
+						if truth[k-1].link != "" {
+							p.link = truth[k-1].link
+						}
+						if truth[k-1].known {
+							p = mtOf(p.link, truth[k-1].essence, truth[k-1].super, truth[k-1].sub, true)
+						}
+					}
 					p.keys = fmt.Sprintf("%d\r", k)
 					probes = append(probes, p)
 				}
